@@ -45,6 +45,9 @@ NAME_ALPHABET = 'ABCDEFGHIJKLMNOPQRSTUVWXYZabcdefghijklmnopqrstuvwxyz0123456789 
 def rand_name(rng, fancy):
     if not fancy:
         return None
+    if fancy == 'tokens':
+        sep = rng.choice(['_', '/'])
+        return sep.join(rng.choice(['p', 'q']) for _ in range(rng.randint(1, 3)))
     n = rng.randint(1, 6)
     s = ''.join(rng.choice(NAME_ALPHABET) for _ in range(n))
     s = s.strip()
@@ -58,7 +61,7 @@ def gen_tree(rng, nleaves, max_arity=4, unary=False, fancy_names=False, shape=No
 
     def fresh(prefix):
         while True:
-            nm = rand_name(rng, fancy_names and rng.random() < 0.7)
+            nm = rand_name(rng, fancy_names if (fancy_names == 'tokens' or (fancy_names and rng.random() < 0.7)) else False)
             if nm is None:
                 nm = '%s%d' % (prefix, counter[0])
             counter[0] += 1
